@@ -64,6 +64,8 @@ pub struct Prog {
     /// C11: at every file removal take the image and check afterwards that a crash at that
     /// moment recovers every acknowledged write (single-writer programs only)
     pub recover_at_removals: bool,
+    /// sticky fault by file kind, armed after the setup: (call classes, file-name suffix)
+    pub fault: Option<(u32, &'static str)>,
 }
 
 pub fn val(id: u16, size: u32) -> Vec<u8> {
@@ -88,6 +90,7 @@ impl Prog {
             "strict_unlink": self.strict_unlink,
             "fs_calls_are_switch_points": self.fs_switch,
             "crash_recovery_checked_at_every_file_removal": self.recover_at_removals,
+            "sticky_fault_after_setup": self.fault.map(|(c, s)| format!("classes {:#x} on *{}", c, s)),
         })
     }
 }
@@ -291,6 +294,9 @@ fn prog_body(prog: &Prog, log: &Arc<Mutex<Vec<Event>>>, stale: &Arc<AtomicU64>) 
         exec_op(&db, &prog.keys, 0, op, log2);
     }
     fs.set_fs_switch(prog.fs_switch);
+    if let Some((classes, suffix)) = prog.fault {
+        fs.state().fail_by_suffix = Some((classes, suffix.to_string()));
+    }
     let mut handles = vec![];
     for (ti, ops) in prog.threads.iter().enumerate() {
         let db = Arc::clone(&db);
@@ -528,6 +534,11 @@ pub fn judge(prog: &Prog, out: &Outcome, events: &[Event], stale_uses: u64, atom
         Outcome::Deadlock(m) => return Some(("C09.deadlock".into(), m.clone())),
         Outcome::StepBound => return Some(("C09.livelock".into(), "step bound exceeded".into())),
         Outcome::Divergence(m) => return Some(("machinery.divergence".into(), m.clone())),
+    }
+    if prog.fault.is_some() {
+        // an injected fault makes errors legitimate; what is judged is that every call returned
+        // (no deadlock / panic above)
+        return None;
     }
     for e in events {
         if let Res::Err(m) = &e.res {
